@@ -913,6 +913,7 @@ func (ro *RedisOutput) sendCmdsBatch(replayWait usync.WaitCloser, conn client.Re
 	defer updateCpTicker.Stop()
 
 	cpInDbs := make(map[int]struct{})
+	cpDb := -1 // target db the connection is in, as designated by the last command sent (-1: initial db)
 
 	// transaction : call sendFunc when command is "exec", never break down a transaction
 	// non-transaction : call sendFunc when queue is full or ticker is delivered
@@ -989,6 +990,9 @@ func (ro *RedisOutput) sendCmdsBatch(replayWait usync.WaitCloser, conn client.Re
 		for _, ce := range cmdQueue {
 			batcher.Put(ce.Cmd, ce.Args...)
 			cmdCounter++
+			if ce.Cmd != "ping" {
+				cpDb = ce.Db
+			}
 			if ce.syncDelayNs > 0 {
 				if delayNs == 0 || delayNs > ce.syncDelayNs {
 					delayNs = ce.syncDelayNs
@@ -998,12 +1002,11 @@ func (ro *RedisOutput) sendCmdsBatch(replayWait usync.WaitCloser, conn client.Re
 
 		if shouldUpdateCP {
 			if ro.cfg.EnableResumeFromBreakPoint {
-				if len(cmdQueue) > 0 {
-					lastCmd := cmdQueue[len(cmdQueue)-1]
-					if _, ok := cpInDbs[lastCmd.Db]; !ok {
-						cpInDbs[lastCmd.Db] = struct{}{}
-						batcher.Put("hset", checkpointKv.Key, checkpointKv.RunIdKey(), runId, checkpointKv.VersionKey(), config.Version)
-					}
+				// the checkpoint lands in the db the connection is in, also when the queue is
+				// empty (ticker flush after a SELECT was sent): that db needs run id and version too
+				if _, ok := cpInDbs[cpDb]; !ok {
+					cpInDbs[cpDb] = struct{}{}
+					batcher.Put("hset", checkpointKv.Key, checkpointKv.RunIdKey(), runId, checkpointKv.VersionKey(), config.Version)
 				}
 				batcher.Put("hset", checkpointKv.Key, checkpointKv.OffsetKey(), lastOffset)
 			} else {
